@@ -373,6 +373,8 @@ class P:
                 self.expect(")")
                 if tys == ["std::ptrdiff_t"]:
                     e = ("toint", e)
+                elif tys in (["size_t"], ["std::size_t"]):
+                    e = ("tonat", e)
             elif v in ("true", "false"):
                 e = ("bool", v == "true")
             else:
@@ -1166,6 +1168,22 @@ def main():
             os.remove(out)
         sys.stderr.write("cxx2lean: cannot translate rx_chunk::parse: %s\n" % (e,))
         failed += 1
+    # mode 3: the receivers (tools/cxx2lean_rx.py)
+    import cxx2lean_rx
+    for name, job in cxx2lean_rx.JOBS:
+        out = os.path.join(OUTDIR, name + ".lean")
+        try:
+            text = job()
+            old = open(out).read() if os.path.exists(out) else None
+            if old != text:
+                with open(out, "w") as f:
+                    f.write(text)
+            print("ViaGen/%s.lean: %d lines" % (name, text.count("\n")))
+        except Exception as e:      # fail closed, whatever went wrong
+            if os.path.exists(out):
+                os.remove(out)
+            sys.stderr.write("cxx2lean: cannot translate %s: %s: %s\n" % (name, type(e).__name__, e))
+            failed += 1
     sys.exit(1 if failed else 0)
 
 
